@@ -5,7 +5,7 @@ import logging
 import os
 from dataclasses import dataclass, field
 
-from . import xltypes, reader, parser, tokenizer
+from . import xltypes, reader, parser, tokenizer, utils
 
 
 @dataclass
@@ -234,6 +234,11 @@ class ModelCompiler:
 
             # a cell has an address like; Sheet1!A1
             if ':' not in cell_address:
+                if '!' in cell_address:
+                    # Cells are keyed by the bare sheet name, a defined name
+                    # quotes it where needed: 'My Sheet'!A1
+                    cell_address = '{}!{}{}'.format(
+                        *utils.resolve_address(cell_address))
                 if cell_address not in self.model.cells:
                     logging.warning(
                         f"Defined name {name} refers to empty cell "
